@@ -6,10 +6,11 @@
 (*             (min(lineno, decorator linenos) .. end_lineno);  nodeline = its ast lineno;  diagline = lineno   *)
 (*             of the reported diagnostic                                                                        *)
 (*   del/added the Replacement the real run handed to _apply_changes_to_lines (first change): linenos_to_delete, *)
-(*             len(lines_to_add);  nchanges = number of proposed changes;  ins_indent (ignore mode)             *)
+(*             len(lines_to_add);  proposed = it has lines_to_add at all;  ins_indent (ignore mode)             *)
 (*   keep_prefix / keep_suffix / newlen   common prefix / suffix (in lines) of the old and the new text          *)
 (*   parses, intended (AST of the new text = AST of the program with the intended change; ignore mode: AST      *)
-(*   unchanged), ins_comment (ignore mode: the inserted line is a COMMENT token), gone, clean                    *)
+(*   unchanged), ins_comment (ignore mode: the added ignore text is a COMMENT token), gone, clean, cli_same      *)
+(*   (facts that cannot be evaluated because the new text does not parse are recorded as TRUE)                   *)
 (* Order of judgement: oracle (the model's file and extent are the real ones), drift (Impl model = real fixer), *)
 (* then the post-conditions; a failing post-condition is a known deviation only if the case is in a Dev class   *)
 (* that can break this clause AND the real edit is exactly the one the deviating mechanism produces.            *)
@@ -21,7 +22,14 @@ Say(tid, v) == PrintT(<<"VERDICT", tid, v>>)
 
 TInit == l = 1 /\ Init
 
-Judge(o) ==
+\* ---- oracle: the abstract file / extent are those of the real text
+JudgeOracle(o) ==
+    /\ (IF o.lines = File(o.case) THEN TRUE ELSE Say(o.tid, "oracle:layout-attrs"))
+    /\ (IF /\ o.extent[1] = ExtFirst(o.case) /\ o.extent[2] = ExtLast(o.case)
+           /\ o.nodeline = NodeLine(o.case) /\ o.diagline = DiagLine(o.case)
+        THEN TRUE ELSE Say(o.tid, "oracle:extent"))
+
+JudgeProposed(o) ==
     LET cc == o.case
         tid == o.tid
         f == o.lines
@@ -37,13 +45,9 @@ Judge(o) ==
             ELSE IF repro /\ \E k \in known : clause \in ClausesOf(k)
                  THEN \A k \in {k2 \in known : clause \in ClausesOf(k2)} : Say(tid, "dev:" \o k)
                  ELSE Say(tid, "viol:" \o clause)
-        allok == o.parses /\ o.intended /\ o.gone /\ o.clean /\ (fix \/ o.ins_comment)
+        allok == /\ o.parses /\ o.intended /\ o.gone /\ o.clean /\ (fix \/ o.ins_comment)
                  /\ (fix => (del = e1..e2 /\ o.keep_prefix >= e1 - 1 /\ o.keep_suffix >= n - e2))
-    IN \* ---- oracle: the abstract file / extent are those of the real text
-       /\ (IF f = File(cc) THEN TRUE ELSE Say(tid, "oracle:layout-attrs"))
-       /\ (IF e1 = ExtFirst(cc) /\ e2 = ExtLast(cc) /\ o.nodeline = NodeLine(cc) /\ o.diagline = DiagLine(cc)
-           THEN TRUE ELSE Say(tid, "oracle:extent"))
-       \* ---- drift: the Impl operators reproduce the real fixer (evaluated on the observed lines)
+    IN \* ---- drift: the Impl operators reproduce the real fixer (evaluated on the observed lines)
        /\ (IF del # {} THEN TRUE ELSE Say(tid, "drift:no-change-proposed"))
        /\ (IF fix
            THEN (IF del = ImplRange(f, o.nodeline, e2) THEN TRUE ELSE Say(tid, "drift:range"))
@@ -59,15 +63,23 @@ Judge(o) ==
                 /\ Post(o.intended, "OnlyIntendedChange")
            ELSE /\ Post(o.intended, "TreeUnchanged")
                 /\ Post(o.ins_comment, "InsertedLineIsComment")
-                \* the Ref model of "a comment line is a no-op here" agrees with CPython
-                /\ (IF RefInsertSafe(f, o.diagline) \/ ~(o.parses /\ o.intended /\ o.ins_comment)
-                    THEN TRUE ELSE Say(tid, "oracle:insert-safety")))
+                \* the Ref model of "a comment line is a no-op here" agrees with CPython (judged only when the real
+                \* edit IS an own-line insertion above the diagnostic's line)
+                /\ (IF del = {o.diagline} /\ o.added = 2
+                    THEN (IF RefInsertSafe(f, o.diagline) \/ ~(o.parses /\ o.intended /\ o.ins_comment)
+                          THEN TRUE ELSE Say(tid, "oracle:insert-safety"))
+                    ELSE TRUE))
        /\ Post(o.parses, "StillParses")
        /\ Post(o.gone, "ProposingDiagnosticGone")
        /\ Post(o.clean, "FixLoopTerminatesClean")
        /\ Post(o.cli_same, "CommandLineFixerAgrees")
        \* a deviation class that the real code no longer exhibits is model drift
        /\ (IF known # {} /\ allok THEN Say(tid, "drift:deviation-not-reproduced") ELSE TRUE)
+
+\* the property speaks about replacements that ARE proposed
+Judge(o) ==
+    /\ JudgeOracle(o)
+    /\ (IF o.proposed THEN JudgeProposed(o) ELSE Say(o.tid, "drift:no-replacement-proposed"))
 
 TObs == /\ Judge(Obs[l])
         /\ c' = Obs[l].case /\ stage' = "done"
